@@ -138,12 +138,17 @@ type AuditCase struct {
 	FailWrite int            `json:"fail_write"` // counted over the records of Ops
 	Partial   bool           `json:"partial"`
 	FailSync  int            `json:"fail_sync"`
+	HTTP      bool           `json:"http"` // calls go through the registered HTTP handlers and setec.Client (WhoIs table), not db.DB directly
 }
 
+// two names beyond any plausible line-length budget that differ only in their last byte
+var c06LongA, c06LongB = "dev/" + strings.Repeat("L", 1100) + "1", "dev/" + strings.Repeat("L", 1100) + "2"
+var c06Names = append(append([]string{}, c01Names...), c06LongA, c06LongB)
+
 func genAuditCase(rt *rapid.T) AuditCase {
-	c := AuditCase{}
+	c := AuditCase{HTTP: rapid.IntRange(0, 2).Draw(rt, "http") == 0}
 	c.Pre = rapid.SliceOfN(rapid.Custom(func(rt *rapid.T) dbx.Op {
-		return dbx.GenOp(rt, c01Names, []string{"put", "put", "put", "activate", "delver"}, 1)
+		return dbx.GenOp(rt, c06Names, []string{"put", "put", "put", "activate", "delver"}, 1)
 	}), 0, 8).Draw(rt, "pre")
 	n := rapid.IntRange(1, 2).Draw(rt, "ncallers")
 	for i := 0; i < n; i++ {
@@ -154,7 +159,7 @@ func genAuditCase(rt *rapid.T) AuditCase {
 		c.Rules = append(c.Rules, rs)
 	}
 	c.Ops = rapid.SliceOfN(rapid.Custom(func(rt *rapid.T) dbx.Op {
-		return dbx.GenOp(rt, c01Names, append([]string{"cond", "cond"}, c01Kinds...), n+1)
+		return dbx.GenOp(rt, c06Names, append([]string{"cond", "cond"}, c01Kinds...), n+1)
 	}), 1, 25).Draw(rt, "ops")
 	switch rapid.IntRange(0, 3).Draw(rt, "fault") {
 	case 1:
@@ -181,8 +186,22 @@ func runC06(t *testing.T, c AuditCase) (*h.Violation, h.Info) {
 	for i, r := range c.Rules {
 		callers = append(callers, dbx.Restricted(i+1, r))
 	}
-	tgt := dbx.DBTarget{D: d}
+	var tgt dbx.Target = dbx.DBTarget{D: d}
+	if c.HTTP {
+		ht, err := dbx.NewHTTP(d, callers)
+		if err != nil {
+			return h.V("harness", "server: %v", err), info
+		}
+		tgt = ht
+		info.Class("through-http-handlers")
+		for _, r := range c.Rules {
+			if len(r) == 0 {
+				info.Class("http-caller-without-any-grant")
+			}
+		}
+	}
 	tr := dbx.NewTracker()
+	tr.Wire = c.HTTP
 	for i, op := range c.Pre {
 		ver := tr.Resolve(op)
 		want := tr.Expect(su.Rules, op, ver)
@@ -222,6 +241,9 @@ func runC06(t *testing.T, c AuditCase) (*h.Violation, h.Info) {
 		// what must have been recorded
 		allowed := op.Kind == "list" || model.Allow(caller.Rules, dbx.ActionOf(op.Kind), op.Name)
 		malformed := (op.Kind == "put" || op.Kind == "activate") && op.Name == ""
+		if c.HTTP && op.Name == "" && op.Kind != "list" {
+			malformed = true // the front door may refuse a request without a name before any decision is made
+		}
 		minRec, maxRec := 1, 1
 		switch {
 		case malformed:
@@ -362,10 +384,10 @@ func runC06(t *testing.T, c AuditCase) (*h.Violation, h.Info) {
 
 var c06 = &h.Campaign[AuditCase]{
 	Prop: "C06", Sub: "audit",
-	Rule: "rapid: C01-style scenarios (superuser pre-history, 1-2 restricted callers with generated rule sets, 1-25 calls of every kind incl. conditional gets) on db.DB with a recording audit sink (every Write/Sync logged together with whether the database file still equals its pre-call bytes) and a fault plan: the k-th Write fails (nothing or half the record written) or the k-th Sync fails, k anywhere in the history; per call the set of required records comes from the ACL+map model; non-trivial = scenario has a denial AND a delivery AND (an unchanged conditional get OR an injected sink fault that hits an allowed mutation); distinct by scenario",
+	Rule:  "rapid: C01-style scenarios (superuser pre-history, 1-2 restricted callers with generated rule sets, 1-25 calls of every kind incl. conditional gets) on db.DB with a recording audit sink (every Write/Sync logged together with whether the database file still equals its pre-call bytes) and a fault plan: the k-th Write fails (nothing or half the record written) or the k-th Sync fails, k anywhere in the history; per call the set of required records comes from the ACL+map model; non-trivial = scenario has a denial AND a delivery AND (an unchanged conditional get OR an injected sink fault that hits an allowed mutation); distinct by scenario",
 	Quick: 6000, Thorough: 800000,
-	Gen:   genAuditCase,
-	Run:   runC06,
+	Gen: genAuditCase,
+	Run: runC06,
 }
 
 func init() { c06.Register(); c06conc.Register() }
@@ -375,8 +397,9 @@ func TestC06Audit(t *testing.T) { c06.Check(t) }
 // ---- concurrent appenders on a real audit file --------------------------------
 
 type ConcAuditCase struct {
-	Rules [][]model.Rule `json:"rules"` // one restricted caller per goroutine
-	Progs [][]dbx.Op     `json:"progs"`
+	Rules  [][]model.Rule `json:"rules"` // one restricted caller per goroutine
+	Progs  [][]dbx.Op     `json:"progs"`
+	Reopen bool           `json:"reopen"` // half-way, everything stops, the audit file is closed and opened again (a server restart)
 }
 
 func runC06Conc(t *testing.T, c ConcAuditCase) (*h.Violation, h.Info) {
@@ -399,37 +422,56 @@ func runC06Conc(t *testing.T, c ConcAuditCase) (*h.Violation, h.Info) {
 	}
 	want := map[key]int{}
 	total := 0
-	var wg sync.WaitGroup
-	start := make(chan struct{})
-	for g, prog := range c.Progs {
-		caller := dbx.Restricted(g+1, c.Rules[g%len(c.Rules)])
-		caller.Host = fmt.Sprintf("g%d.example.ts.net", g)
-		for _, op := range prog {
-			k := key{host: caller.Host, action: dbx.ActionOf(op.Kind), secret: op.Name}
-			if op.Kind == "list" {
-				k.action, k.secret, k.auth = "info", "", true
-			} else {
-				k.auth = model.Allow(caller.Rules, k.action, op.Name)
-			}
-			switch op.Kind {
-			case "getver", "activate", "delver":
-				k.ver = uint32(op.VArg)
-			}
-			want[k]++
-			total++
-		}
-		wg.Add(1)
-		go func() {
-			defer wg.Done()
-			<-start
-			tgt := dbx.DBTarget{D: d}
-			for _, op := range prog {
-				tgt.Do(caller, op, uint32(op.VArg))
-			}
-		}()
+	phases := [][2]int{{0, 100}}
+	if c.Reopen {
+		phases = [][2]int{{0, 50}, {50, 100}}
+		info.Class("audit-file-reopened-half-way")
 	}
-	close(start)
-	wg.Wait()
+	for pi, ph := range phases {
+		if pi > 0 {
+			if err := w.Close(); err != nil {
+				return h.V("harness", "close audit log: %v", err), info
+			}
+			if w, err = audit.NewFile(logPath); err != nil {
+				return h.V("harness", "audit file: %v", err), info
+			}
+			if d, err = db.Open(filepath.Join(dir, "db"), dbx.DummyKey(), w); err != nil {
+				return h.V("harness", "open: %v", err), info
+			}
+		}
+		var wg sync.WaitGroup
+		start := make(chan struct{})
+		for g, whole := range c.Progs {
+			prog := whole[len(whole)*ph[0]/100 : len(whole)*ph[1]/100]
+			caller := dbx.Restricted(g+1, c.Rules[g%len(c.Rules)])
+			caller.Host = fmt.Sprintf("g%d.example.ts.net", g)
+			for _, op := range prog {
+				k := key{host: caller.Host, action: dbx.ActionOf(op.Kind), secret: op.Name}
+				if op.Kind == "list" {
+					k.action, k.secret, k.auth = "info", "", true
+				} else {
+					k.auth = model.Allow(caller.Rules, k.action, op.Name)
+				}
+				switch op.Kind {
+				case "getver", "activate", "delver":
+					k.ver = uint32(op.VArg)
+				}
+				want[k]++
+				total++
+			}
+			wg.Add(1)
+			go func() {
+				defer wg.Done()
+				<-start
+				tgt := dbx.DBTarget{D: d}
+				for _, op := range prog {
+					tgt.Do(caller, op, uint32(op.VArg))
+				}
+			}()
+		}
+		close(start)
+		wg.Wait()
+	}
 	if err := w.Close(); err != nil {
 		return h.V("harness", "close audit log: %v", err), info
 	}
@@ -475,17 +517,17 @@ func runC06Conc(t *testing.T, c ConcAuditCase) (*h.Violation, h.Info) {
 
 var c06conc = &h.Campaign[ConcAuditCase]{
 	Prop: "C06", Sub: "concurrent",
-	Rule: "rapid: 2-8 goroutines x 5-40 calls (all kinds whose logging does not depend on state: get, get-version, info, put, activate, delete-version, delete, list; allowed and denied by generated rule sets) started together on one db.DB writing to a real audit.NewFile log, under the race detector; afterwards every line of the file must be one complete record and the multiset of (caller, action, secret, version, authorized) must equal the calls made; non-trivial = >= 2 goroutines and >= 10 calls; distinct by scenario",
+	Rule:  "rapid: 2-8 goroutines x 5-40 calls (all kinds whose logging does not depend on state: get, get-version, info, put, activate, delete-version, delete, list; allowed and denied by generated rule sets) started together on one db.DB writing to a real audit.NewFile log, under the race detector; afterwards every line of the file must be one complete record and the multiset of (caller, action, secret, version, authorized) must equal the calls made; non-trivial = >= 2 goroutines and >= 10 calls; distinct by scenario",
 	Quick: 150, Thorough: 20000,
 	Gen: func(rt *rapid.T) ConcAuditCase {
 		g := rapid.IntRange(2, 8).Draw(rt, "goroutines")
-		c := ConcAuditCase{}
+		c := ConcAuditCase{Reopen: rapid.IntRange(0, 2).Draw(rt, "reopen") == 0}
 		for i := 0; i < rapid.IntRange(1, 3).Draw(rt, "nrules"); i++ {
 			c.Rules = append(c.Rules, genRuleSet(rt))
 		}
 		for i := 0; i < g; i++ {
 			c.Progs = append(c.Progs, rapid.SliceOfN(rapid.Custom(func(rt *rapid.T) dbx.Op {
-				o := dbx.GenOp(rt, []string{"a", "b", "dev/a", "a\nb", "prod/a"}, []string{"put", "put", "activate", "delver", "del", "get", "getver", "info", "list"}, 1)
+				o := dbx.GenOp(rt, []string{"a", "b", "dev/a", "a\nb", "prod/a", c06LongA, c06LongB}, []string{"put", "put", "activate", "delver", "del", "get", "getver", "info", "list"}, 1)
 				o.VSel, o.VArg = "abs", rapid.IntRange(0, 3).Draw(rt, "v")
 				return o
 			}), 5, 40).Draw(rt, "prog"))
